@@ -72,6 +72,19 @@ def _success(sol):
     return bool(sol[-1]['success'])
 
 
+def _inner(sol):
+    """the info dict of the last stage actually run (ChainedNeqSys / ConditionalNeqSys nest them in 'intermediate_info')"""
+    s = sol
+    for _ in range(10):
+        if isinstance(s, (list, tuple)) and s:
+            s = s[-1]
+        elif isinstance(s, dict) and s.get('intermediate_info'):
+            s = s['intermediate_info'][-1]
+        else:
+            break
+    return s if isinstance(s, dict) else {}
+
+
 def _max_fun(sol):
     """largest |residual| the solver itself reports at the returned point (None if it reports none)"""
     best = None
@@ -560,7 +573,8 @@ class C08(Property):
             with warnings.catch_warnings():
                 warnings.simplefilter('ignore')
                 x, sol, sane = es.root(init, **_variant_kwargs(c['variant']))
-            res.update(success=_success(sol), sane=bool(sane), x=[float(v) for v in np.asarray(x, dtype=float)], maxfun=_max_fun(sol))
+            res.update(success=_success(sol), sane=bool(sane), x=[float(v) for v in np.asarray(x, dtype=float)], maxfun=_max_fun(sol),
+                       inner_success=bool(_inner(sol).get('success')) if 'success' in _inner(sol) else None)
             res['outcome'] = ('success' if res['success'] else 'nosuccess') + ('+sane' if res['sane'] else '+insane')
         except Exception as e:
             res.update(success=False, sane=False, x=None, exc='%s: %s' % (type(e).__name__, str(e)[:120]), outcome='exception:' + type(e).__name__)
@@ -831,7 +845,8 @@ class C08(Property):
                 st = es.stoichs()[0].astype(int)
                 ref = solve_equilibrium(c0, st, 10 ** c['logK'][0])
                 x = np.asarray(r['x'])
-                if not np.allclose(x, ref, rtol=1e-5, atol=1e-9 * float(np.max(np.abs(c0)))):
+                # brentq works to an absolute tolerance xtol = 2e-12 on the reaction coordinate
+                if not np.allclose(x, ref, rtol=1e-5, atol=1e-11 + 1e-9 * float(np.max(np.abs(c0)))):
                     return 'root gives %r, solve_equilibrium (brentq) gives %r' % (x.tolist(), ref.tolist())
             return None
         if kind == 'scalar':
@@ -869,11 +884,16 @@ class C08(Property):
         return None
 
     def known_key(self, c, failure):
-        """scipy's least-squares driver ('lm', used because the systems are over-determined) reports success at a point where the
-        residual it reports itself is far from zero; chempy passes that flag on. Only the Lin/Square formulations are affected."""
-        if c.get('kind') in ('homog', 'salt', 'single') and c.get('variant') in ('lin', 'square'):
+        """Finding `lm-nonroot-reported-as-success`: the Lin / Square formulations are over-determined (nr + #components equations
+        for ns unknowns), so pyneqsys hands them to scipy's least-squares driver 'lm', whose success flag means "the least-squares
+        iteration converged", not "a root was found"; chempy passes that flag on.  Characterising predicate: the chain ends in
+        NumSysLin/NumSysSquare, the last stage itself reports success, and the residual that stage reports at the returned point
+        exceeds the solver tolerance (1e-8).  Anything else (small reported residual but wrong state, success not reported by the
+        stage, the default / logarithmic chain) is a new violation."""
+        if c.get('kind') in ('homog', 'salt', 'single') and c.get('variant') in ('lin', 'square', 'loglin', 'loglin_rref', 'condchain'):
             r = self._run(c)
-            if r.get('maxfun') is not None and r['maxfun'] > 1e-6 and isinstance(failure, str) and 'reports success and a sane result' in failure:
+            if (r.get('maxfun') is not None and r['maxfun'] > 1e-8 and r.get('inner_success') is True
+                    and isinstance(failure, str) and 'reports success and a sane result' in failure):
                 return 'lm-nonroot-reported-as-success'
         return None
 
